@@ -1937,6 +1937,26 @@ class Union(OR):
         yield from self.evaluate_left(sources)
         if self._evaluates_right_on_its_own_:
             yield from self.evaluate_right(sources)
+        else:
+            yield from self._evaluate_right_where_left_has_no_result_(sources)
+
+    def _evaluate_right_where_left_has_no_result_(
+        self, sources: Dict[int, HashedValue]
+    ) -> Iterable[OperationResult]:
+        """
+        The left operand may produce no result at all for a binding (a comparison with a nested query that has no
+        answer, an attribute of a collection that is empty): the right operand decides for these bindings. Bindings for
+        which the left operand has a result, true or false, were handled when the left operand was evaluated.
+
+        :param sources: The current bindings.
+        :return: The results of the right operand for the bindings under which the left operand produces nothing.
+        """
+        for right_value in self.right._evaluate__(sources, parent=self):
+            left_results = self.left._evaluate__(right_value.bindings, parent=self)
+            if next(iter(left_results), None) is not None:
+                continue
+            self._is_false_ = right_value.is_false
+            yield OperationResult(right_value.bindings, self._is_false_, self)
 
 
 @dataclass(eq=False, repr=False)
